@@ -5,10 +5,12 @@ A case is one protocol line holding an operation tree in postfix form (see lean/
     val <prog>            the object the tree evaluates to (len(), chunks, plain_text(), str() as cells)
     fmt <spec> <prog>     format(x, spec) as screen cells
     eq <prog> <prog>      a == b, b == a, a != b
+    alias <n> <x> <b>     u = x.fixed_len(n); u += b  -> x and u (x must not change)
     pyslice / pyidx       Python's own s[i:j] / s[i]  (ties the specification functions to CPython)
 
 Trees (python side): ("s", text) ("c", col, text) ("ls"|"tp", [items]) ("mk", [args]) ("add", a, b)
-("iadd", a, b) ("join", "l"|"t", sep, [items]) ("idx", a, i) ("sl", a, i, j) ("fl", a, n) ("it", a) = list(a).
+("iadd", a, b) ("join", "l"|"t", sep, [items]) ("idx", a, i) ("sl", a, i, j) ("fl", a, n) ("it", a) = list(a)
+("dupiadd", a) = `x = a; x += x`  ("dupiaddl", a) = `x = a; x += [x]`.
 """
 import ast
 import os
@@ -28,6 +30,7 @@ THEOREMS = [
     "C08.iadd_cells",
     "C08.construct_cells",
     "C08.add_cells",
+    "C08.self_iadd",
     "C08.join_cells",
     "C08.slice_cells",
     "C08.index_cells",
@@ -47,9 +50,8 @@ THEOREMS = [
     "C08.eval_observe",
 ]
 
-# opt-in stream: operands that are the *same object* (`t += t`, `u = t.fixed_len(len(t)); u += x`).
-# Off by default: see FINDINGS in the report / KNOWN below.
-ALIASING = os.environ.get("C08_ALIASING", "") not in ("", "0")
+# steps allowed to one `x += x` before it is reported as non-terminating (pre-fix trees loop forever)
+ALIAS_BUDGET = 20000
 
 ESC = "\033"
 
@@ -238,10 +240,8 @@ def postfix(t):
         return postfix(t[1]) + ["fl:%d" % t[2]]
     if k == "it":
         return postfix(t[1]) + ["iter"]
-    if k == "dupiadd":
-        return postfix(t[1]) + ["dupiadd"]
-    if k == "flalias":
-        return postfix(t[1]) + postfix(t[3]) + ["flalias:%d" % t[2]]
+    if k in ("dupiadd", "dupiaddl"):
+        return postfix(t[1]) + [k]
     raise ValueError(k)
 
 
@@ -281,11 +281,8 @@ def parse_postfix(toks):
             st.append(("fl", st.pop(), int(f[1])))
         elif k == "iter":
             st.append(("it", st.pop()))
-        elif k == "dupiadd":
-            st.append(("dupiadd", st.pop()))
-        elif k == "flalias":
-            b = st.pop()
-            st.append(("flalias", st.pop(), int(f[1]), b))
+        elif k in ("dupiadd", "dupiaddl"):
+            st.append((k, st.pop()))
         else:
             raise ValueError(tok)
     return st
@@ -295,6 +292,8 @@ def line_of(kind, trees, spec=None):
     toks = [x for t in trees for x in postfix(t)]
     if kind == "fmt":
         return "fmt %s %s" % (enc_str(spec), " ".join(toks))
+    if kind == "alias":
+        return "alias %d %s" % (spec, " ".join(toks))
     return kind + " " + " ".join(toks)
 
 
@@ -303,6 +302,8 @@ def parse_line(line):
     f = line.split()
     if f[0] == "fmt":
         return "fmt", parse_postfix(f[2:]), dec_str(f[1])
+    if f[0] == "alias":
+        return "alias", parse_postfix(f[2:]), int(f[1])
     if f[0] in ("val", "eq"):
         return f[0], parse_postfix(f[1:]), None
     return f[0], f[1:], None
@@ -313,8 +314,9 @@ class _Budget(Exception):
     pass
 
 
-def _with_budget(fn, steps=200000):
-    """runs fn() under a call/line budget (only used for the opt-in aliasing stream)"""
+def _with_budget(fn, steps=None):
+    """runs fn() under a call/line budget (only around `x += x`: a loop shows up as `_Budget`)"""
+    steps = steps or ALIAS_BUDGET
     n = [0]
 
     def tr(frame, event, arg):
@@ -328,6 +330,17 @@ def _with_budget(fn, steps=200000):
         return fn()
     finally:
         sys.settrace(old)
+
+
+def _self_iadd(x, in_list):
+    def go():
+        y = x
+        if in_list:
+            y += [y]
+        else:
+            y += y
+        return y
+    return _with_budget(go)
 
 
 def ev_real(t):
@@ -365,20 +378,8 @@ def ev_real(t):
         return ev_real(t[1]).fixed_len(t[2])
     if k == "it":
         return list(ev_real(t[1]))
-    if k == "dupiadd":
-        x = ev_real(t[1])
-
-        def go():
-            nonlocal x
-            x += x
-            return x
-        return _with_budget(go)
-    if k == "flalias":
-        x = ev_real(t[1])
-        b = ev_real(t[3])
-        u = x.fixed_len(t[2])
-        u += b
-        return x
+    if k in ("dupiadd", "dupiaddl"):
+        return _self_iadd(ev_real(t[1]), k == "dupiaddl")
     raise ValueError(k)
 
 
@@ -417,6 +418,12 @@ def impl(case):
                 a = ev_real(trees[0])
                 b = ev_real(trees[1])
                 out.append("B %d %d %d" % (bool(a == b), bool(b == a), bool(a != b)))
+            elif kind == "alias":
+                x = ev_real(trees[0])
+                b = ev_real(trees[1])
+                u = x.fixed_len(spec)
+                u += b
+                out.append(show_real(x) + " | " + show_real(u))
             elif kind == "pyslice":
                 out.append("S " + enc_str(dec_str(trees[0])[_pi(trees[1]):_pi(trees[2])]))
             elif kind == "pyidx":
@@ -507,13 +514,11 @@ def ref_step(t, kids):
         if a.kind not in ("t", "c"):
             raise OutOfModel()
         return Ref("ls", items=[Ref(a.kind, ch, [c], col=a.col) for ch, c in zip(list(a.plain), a.cols)])
-    if k == "dupiadd":
-        a = kids[0]
-        if a.kind != "t":
+    if k in ("dupiadd", "dupiaddl"):
+        a = kids[0]                       # s = a; s += s   /  the list [s] holds the same characters
+        if a.kind not in ("t", "c"):
             raise OutOfModel()
         return Ref("t", a.plain + a.plain, a.cols + a.cols)
-    if k == "flalias":
-        return kids[0]
     raise ValueError(k)
 
 
@@ -527,8 +532,6 @@ def kids_of(t):
         return [t[1], t[2]]
     if k == "join":
         return [t[2]] + list(t[3])
-    if k == "flalias":
-        return [t[1], t[3]]
     return [t[1]]
 
 
@@ -542,8 +545,6 @@ def with_kids(t, kids):
         return (k, kids[0], kids[1])
     if k == "join":
         return ("join", t[1], kids[0], list(kids[1:]))
-    if k == "flalias":
-        return (k, kids[0], t[2], kids[1])
     return (k, kids[0]) + tuple(t[2:])
 
 
@@ -586,18 +587,8 @@ def _real_step(t, kids):
         return kids[0].fixed_len(t[2])
     if k == "it":
         return list(kids[0])
-    if k == "dupiadd":
-        x = kids[0]
-
-        def go():
-            nonlocal x
-            x += x
-            return x
-        return _with_budget(go)
-    if k == "flalias":
-        u = kids[0].fixed_len(t[2])
-        u += kids[1]
-        return kids[0]
+    if k in ("dupiadd", "dupiaddl"):
+        return _self_iadd(kids[0], k == "dupiaddl")
     raise ValueError(k)
 
 
@@ -705,7 +696,7 @@ def oracle(case, replies):
     col = _color()
     for line, rep in zip(case["lines"], replies):
         kind, trees, spec = parse_line(line)
-        if kind not in ("val", "fmt", "eq"):
+        if kind not in ("val", "fmt", "eq", "alias"):
             continue
         try:
             vals = [ev_both(t, "x%d" % n) for n, t in enumerate(trees)]
@@ -745,6 +736,27 @@ def oracle(case, replies):
                     return "format-color: format(text, %r) shows %r, expected %r" % (spec, cells, exp)
             elif any(k != "0" for _, k in cells):
                 return "format-color: padding of an empty text is colored"
+        elif kind == "alias":
+            (x, rx), (b, rb) = vals
+            if rx.kind not in ("t", "c") or spec < 0:
+                continue
+            before = show_real(x)
+            try:
+                ru = ref_step(("iadd", None, None), [ref_step(("fl", None, spec), [rx]), rb])
+            except OutOfModel:
+                continue
+            try:
+                u = x.fixed_len(spec)
+                u += b
+            except Exception as e:
+                return "raises: fixed_len / += raises %s" % type(e).__name__
+            try:
+                _check_value(x, rx, "x after `u = x.fixed_len(%d); u += b`" % spec)
+                _check_value(u, ru, "u of `u = x.fixed_len(%d); u += b`" % spec)
+            except Violation as v:
+                return "alias-" + str(v)
+            if show_real(x) != before:
+                return "alias: x changed by `u = x.fixed_len(%d); u += b`" % spec
         elif kind == "eq":
             (a, ra), (b, rb) = vals
             empty_chunk = any(r.kind == "c" and not r.plain for r in (ra, rb))
@@ -827,6 +839,8 @@ class _Gen:
         if depth >= self.maxdepth or rng.random() < 0.12:
             return self.leaf()
         op = rng.choice(["mk", "mk", "add", "add", "iadd", "iadd", "join", "idx", "sl", "sl", "sl", "fl"])
+        if rng.random() < 0.05:
+            op = rng.choice(["dupiadd", "dupiaddl"])
         if op == "mk":
             its = [self.part(depth + 1) for _ in range(rng.randint(0, 3))]
             t = ("mk", [x for x, _ in its])
@@ -847,6 +861,9 @@ class _Gen:
         else:
             a, ra = self.obj(depth + 1)
             n = len(ra.plain)
+            if op in ("dupiadd", "dupiaddl"):
+                t = (op, a)
+                return t, ev_ref_shallow(t)
             if op == "idx":
                 if n == 0:
                     return a, ra
@@ -1038,12 +1055,28 @@ def gen_cases(rng, tier):
     # 5. thorough: every split of a short text into coloured chunks, every assembly, all bounds
     if not quick:
         yield from search_cases(rng, tier)
-    # 6. opt-in: operands that are the same object
-    if ALIASING:
-        for base in BASES:
-            yield _case(line_of("val", [("dupiadd", _base_tree(base))]), "alias-self-iadd")
-            n = sum(len(s) for s, _ in base)
-            yield _case(line_of("val", [("flalias", _base_tree(base), n, ("s", "q"))]), "alias-fixedlen")
+    # 6. operands that are the same object: `t += t`, `t += [t]`, and `u = x.fixed_len(n); u += b` (x must stay)
+    for base in BASES:
+        bt = _base_tree(base)
+        n = sum(len(s) for s, _ in base)
+        yield _case(line_of("val", [("dupiadd", bt)]), "alias-self-iadd")
+        yield _case(line_of("val", [("dupiaddl", bt)]), "alias-self-iadd")
+        for m in range(0, n + 3):
+            for b in (("s", "q"), ("c", 1, "q"), ("c", base[-1][1] if base else 0, "q"), ("mk", [])):
+                yield _case(line_of("alias", [bt, b], m), "alias-fixedlen")
+        if len(base) == 1:
+            ct = ("c", base[0][1], base[0][0])
+            yield _case(line_of("val", [("dupiadd", ct)]), "alias-self-iadd")
+            yield _case(line_of("val", [("dupiaddl", ct)]), "alias-self-iadd")
+            for m in range(0, n + 3):
+                yield _case(line_of("alias", [ct, ("s", "q")], m), "alias-fixedlen")
+    for _ in range(600 if quick else 12000):
+        g = _Gen(rng, 3, 4)
+        t, r = g.obj(0)
+        b, _rb = g.part(1)
+        n = len(r.plain)
+        yield _case(line_of("alias", [t, b], rng.choice([n, n, n, n + 1, max(0, n - 1), rng.randint(0, n + 3)])),
+                    "alias-fixedlen")
 
 
 def corpus():
@@ -1064,6 +1097,10 @@ def corpus():
         "val c:1:97 c:1:98 s:99 s:100 mk:4",  # merging of equal neighbours
         "val c:1:120 c:1:- join:t:1",         # join of one element has no separator
         "val c:0:99 fl:2",                    # len() after a merge
+        "val c:1:98 c:0:99 mk:2 dupiadd",     # fixed 6257f6b: t += t on two chunks never returned
+        "val c:1:98 c:0:99 mk:2 dupiaddl",    # ... nor t += [t]
+        "alias 0 mk:0 s:113",                 # fixed ec75272: fixed_len returned the text itself, u += 'q' changed x
+        "alias 2 c:1:97,98 mk:1 c:1:113",     # the same with a merge into the last chunk
     ]
     return [{"lines": [l], "meta": {"kind": "corpus"}} for l in lines]
 
@@ -1139,16 +1176,18 @@ def shrink(case):
     except Exception:
         return
     meta = case.get("meta", {})
-    if kind not in ("val", "fmt", "eq"):
+    if kind not in ("val", "fmt", "eq", "alias"):
         return
     for i, t in enumerate(trees):
         for y in _shrink_tree(t):
-            if kind != "val" and y[0] in ("ls", "tp", "it"):
+            if kind != "val" and y[0] in ("ls", "tp", "it") and not (kind == "alias" and i == 1):
                 continue
             try:
                 yield {"lines": [line_of(kind, trees[:i] + [y] + trees[i + 1:], spec)], "meta": meta}
             except Exception:
                 continue
+    if kind == "alias" and spec > 0:
+        yield {"lines": [line_of(kind, trees, spec - 1)], "meta": meta}
     if kind == "fmt" and spec:
         for i in range(len(spec)):
             yield {"lines": [line_of(kind, trees, spec[:i] + spec[i + 1:])], "meta": meta}
@@ -1158,15 +1197,15 @@ def shrink(case):
 RULE = ("one case = one operation tree (postfix line). Streams: exhaustive slices/indexes/fixed_len/format widths on 7 base "
         "texts of 0-4 chunks and on single chunks; random trees of depth <= 4 (thorough 6) over 2-6 colours and texts of "
         "0-4 characters from 'abc xyz s05<é中' (constructor, +, +=, reflected + with str/list/tuple, join, [i], [i:j], "
-        "fixed_len, list(x), nested lists/tuples, empty operands), observed as value / format(spec) / == against a re-assembly of the "
-        "same cells, a near miss, a str, a chunk; IndexError trees; Python's own slicing; out-of-domain stream (negative "
+        "fixed_len, list(x), x += x, x += [x], nested lists/tuples, empty operands), observed as value / format(spec) / == against a re-assembly of the "
+        "same cells, a near miss, a str, a chunk; IndexError trees; `u = x.fixed_len(n); u += b` observed on x and u; Python's own slicing; out-of-domain stream (negative "
         "fixed_len, malformed specs: model = code only). non-trivial = at least two operations and two distinct colours "
         "in the tree (py-slice: text of >= 2 characters); distinct by protocol line")
 TRUSTED = ["CPython str/list slicing, str.join, str.ljust, format(str, spec) (the reference side of the oracle)",
            "harness-side reading of str(text) into (character, colour) cells by the palette's own prefixes"]
 ASSUMPTIONS = ["colour id = (c_prefix, c_suffix) of a ColorFmt-produced chunk; the suffix is a function of the prefix",
-               "operands of one operation are distinct objects (no `t += t`, no mutation through the object returned by "
-               "fixed_len when it is the text itself) — see the report: `t += t` with two or more chunks does not terminate",
+               "an operand that is the target itself occurs only as `t += t` / `t += [t]` (value semantics defines them); a list "
+               "mentioning the target twice (`t += [t, t]` gives four copies) is not generated",
                "characters of texts and fills are not ESC"]
 
 
@@ -1197,18 +1236,13 @@ def tags(case, replies):
     yield "reply:" + (" ".join(r[:2]) if r[0] == "err" else r[0])
     line = case["lines"][0]
     kind, trees, _ = parse_line(line)
-    if kind in ("val", "fmt", "eq"):
+    if kind in ("val", "fmt", "eq", "alias"):
         yield "depth:%d" % max(_depth(t) for t in trees)
         for op in sorted(set(x[0] for t in trees for x in _nodes(t))):
             yield "op:" + op
         if r[0] == "T":
             yield "chunks:%d" % (0 if r[2] == "-" else r[2].count("/") + 1)
 
-
-KNOWN = {
-    "self_iadd": lambda case: any("dupiadd" in l.split() for l in case["lines"]),
-    "fixed_len_alias": lambda case: any(tok.startswith("flalias:") for l in case["lines"] for tok in l.split()),
-}
 
 LEVEL_TEXT = ("Kernel-checked for all inputs on the Lean model of CHText / CHText.Chunk (chunk = colour id + text, cached scrlen): "
               "(1) the state invariant (no empty chunk, neighbours differ in colour, scrlen = number of visible characters) holds "
@@ -1232,8 +1266,8 @@ LEVEL_NOTE = ("Trusted: Lean kernel (axioms propext, Classical.choice, Quot.soun
               "thorough), CPython's str on the oracle side. Not modelled: escape sequences themselves (C09), CHText.make / "
               "resize_chunks_list (internal, C12), slice steps (rejected by CHText), format specs outside "
               "[[fill]align][width][s] (zero flag, precision, sign: the model answers `unmodelled` or follows the code, no theorem), "
-              "negative fixed_len (model follows the code, outside the property), object identity: the model is value-based, so "
-              "operations whose operands are the same object are outside it - `t += t` on a text of >= 2 chunks does not "
-              "terminate in the real code and fixed_len returns the text itself when the length already fits (opt-in stream "
-              "C08_ALIASING=1 reports both).")
+              "negative fixed_len (model follows the code, outside the property). The model is value-based; operands that are the "
+              "target itself are covered as `t += t`, `t += [t]` (C08.self_iadd; run under a step budget so that a loop is "
+              "reported, fix 6257f6b) and `u = x.fixed_len(n); u += b` must leave x unchanged (fix ec75272); `t += [t, t]` "
+              "(four copies: the second element is read after the first append) is outside the model and not generated.")
 TECHNIQUE = "Lean 4 refinement proof (chunk list -> list of coloured cells) + canonical-form invariant + correspondence check on operation trees"
